@@ -187,6 +187,20 @@ def eval_case(desc, ctx):
         problems.append(f"clock set to step 0 (as on a warm start): nctime()={w0}, step={int(tk.step)}, time={sec(tk.time)}; expected {s - refv}, 1, {s + sgn * dt}")
     if abs(w1 - (s + sgn * dt - refv) / USECS[u]) > 1e-9 * max(1.0, abs(w1)):
         problems.append(f"clock set to step 0 then one update: nctime({u})={w1}, offset from reference={(s + sgn * dt - refv) / USECS[u]}")
+    # a second clock in the same process: same start and dt, opposite direction (a backtracking run from the same
+    # instant); every clock is a function of its own arguments only
+    try:
+        tk2 = TimeKeeper(start=rf.iso(s), stop=rf.iso(s - (e - s)), dt=dt, time_reversal=not rev)
+        sg2 = -sgn
+        if sec(tk2.time) != s - sg2 * dt or sec(tk2.step2time(n)) != s + sg2 * n * dt or int(tk2.time2step(tk2.step2time(n))) != n:
+            problems.append(f"second clock (same start and dt, opposite direction): time={sec(tk2.time)}, step2time({n})={sec(tk2.step2time(n))}; "
+                            f"expected {s - sg2 * dt} and {s + sg2 * n * dt}")
+        tk2.update()
+        if sec(tk2.time) != s or float(tk2.nctime()) != float(s - sec(tk2.reference_time)):
+            problems.append(f"second clock after one update reads {sec(tk2.time)} (nctime {float(tk2.nctime())}), expected {s}")
+    except SystemExit:
+        if e != s:
+            problems.append("the clock of the opposite direction over the mirrored window was refused")
     ints = head + [1, oN, oref, n, os2t, x, ot2s, UNITS.index(u)] + fl(onc) + [k, ostep, otime] + fl(cnc)
     # step2nctime in units other than seconds is a float quotient: exact only when representable;
     # use exact stream when divisible, otherwise compare in the oracle only
